@@ -168,6 +168,8 @@ pub enum ObjKind {
     Aspa(u32, Vec<u32>),
     /// (asn, EC key index)
     Router(u32, usize),
+    /// A router certificate for several AS numbers (one key per number).
+    RouterMulti(Vec<u32>, usize),
 }
 
 #[derive(Clone, Debug)]
@@ -203,7 +205,7 @@ impl ObjSpec {
         match self.kind {
             ObjKind::Roa(..) => format!("{}.roa", self.name),
             ObjKind::Aspa(..) => format!("{}.asa", self.name),
-            ObjKind::Router(..) => format!("{}.cer", self.name),
+            ObjKind::Router(..) | ObjKind::RouterMulti(..) => format!("{}.cer", self.name),
         }
     }
 }
@@ -591,8 +593,13 @@ impl<'a> Builder<'a> {
                     let der = aspa.encode_ref().to_captured(Mode::Der).into_bytes().to_vec();
                     (der, vec![Payload::Aspa(data::aspa(customer, &ps))])
                 }
-                ObjKind::Router(asn, ec) => {
-                    let asn = if obj.fault == Some(Fault::Overclaim) { 4_200_000_000 + oi as u32 } else { *asn };
+                ObjKind::Router(..) | ObjKind::RouterMulti(..) => {
+                    let (asns, ec): (Vec<u32>, &usize) = match &obj.kind {
+                        ObjKind::Router(asn, ec) => (vec![*asn], ec),
+                        ObjKind::RouterMulti(asns, ec) => (asns.clone(), ec),
+                        _ => unreachable!()
+                    };
+                    let asns: Vec<u32> = if obj.fault == Some(Fault::Overclaim) { vec![4_200_000_000 + oi as u32] } else { asns };
                     let ec_pub = self.gen.ec_pubs[*ec].clone();
                     let mut cert = TbsCert::new(
                         Serial::from(serial), pubkey.to_subject_name(), validity,
@@ -602,13 +609,13 @@ impl<'a> Builder<'a> {
                     cert.set_ca_issuer(Some(rsync(cert_uri)));
                     cert.set_crl_uri(Some(rsync(&ee_crl)));
                     cert.set_extended_key_usage(Some(ExtendedKeyUsage::create_router()));
-                    cert.build_as_resource_blocks(|b| b.push(Asn::from_u32(asn)));
+                    cert.build_as_resource_blocks(|b| for asn in &asns { b.push(Asn::from_u32(*asn)) });
                     let cert = cert.into_cert(&self.gen.signer, key).expect("sign router cert");
-                    let payload = Payload::RouterKey(rpki::rtr::payload::RouterKey::new(
-                        ec_pub.key_identifier(), Asn::from_u32(asn),
+                    let payload = asns.iter().map(|asn| Payload::RouterKey(rpki::rtr::payload::RouterKey::new(
+                        ec_pub.key_identifier(), Asn::from_u32(*asn),
                         rpki::rtr::pdu::RouterKeyInfo::new(ec_pub.to_info_bytes()).unwrap(),
-                    ));
-                    (cert.to_captured().into_bytes().to_vec(), vec![payload])
+                    ))).collect();
+                    (cert.to_captured().into_bytes().to_vec(), payload)
                 }
             };
             match obj.fault {
